@@ -802,6 +802,17 @@ func init() {
 		what, ran := c18GoTest(tmp)
 		return ran && what != "", what
 	}
+	replayers["floatnarrow"] = func(v violation, tmp string) (bool, string) {
+		w, _ := strconv.Atoi(v.Params["w"])
+		k, _ := strconv.Atoi(v.Params["k"])
+		lo, _ := strconv.ParseUint(v.Params["lo"], 10, 64)
+		for seed := uint64(1); seed <= 3; seed++ {
+			if what := floatNarrow(seed, w, lo, k); what != "" {
+				return true, what
+			}
+		}
+		return false, "every float of the range is produced"
+	}
 	replayers["floatbits"] = func(v violation, tmp string) (bool, string) {
 		w, _ := strconv.Atoi(v.Params["w"])
 		e, _ := strconv.Atoi(v.Params["e"])
@@ -880,6 +891,35 @@ func floatBinade(seed uint64, w int, e int) string {
 	if missing1 != 0 || missing0 != 0 || !sawLo || !sawHi {
 		return fmt.Sprintf("Float%dRange(2^%d, 2^%d): in %d draws significand bits %#x were never 1, bits %#x never 0, min seen=%v, max seen=%v",
 			w, e, e+1, draws, missing1, missing0, sawLo, sawHi)
+	}
+	return ""
+}
+
+// the k+1 floats from the one with bit pattern lo upwards: every one of them is produced within 6000 draws
+func floatNarrow(seed uint64, w int, lo uint64, k int) string {
+	hi := lo + uint64(k)
+	seen := map[uint64]bool{}
+	s := rapid.VerifRandStream(seed, false)
+	const draws = 6000
+	for n := 0; n < draws; n++ {
+		var b uint64
+		if w == 64 {
+			sg, ee, si, sf := rapid.VerifGenFloatRange(s, math.Float64frombits(lo), math.Float64frombits(hi), 52)
+			b = math.Float64bits(rapid.VerifFloat64FromParts(sg, ee, si, sf))
+		} else {
+			sg, ee, si, sf := rapid.VerifGenFloatRange(s, float64(math.Float32frombits(uint32(lo))), float64(math.Float32frombits(uint32(hi))), 23)
+			b = uint64(math.Float32bits(rapid.VerifFloat32FromParts(sg, ee, si, sf)))
+		}
+		seen[b] = true
+	}
+	var missing []string
+	for b := lo; b <= hi; b++ {
+		if !seen[b] {
+			missing = append(missing, fmt.Sprintf("%#x", b))
+		}
+	}
+	if len(missing) > 0 {
+		return fmt.Sprintf("Float%dRange(%#x, %#x) (%d floats): in %d draws never produced %v", w, lo, hi, k+1, draws, missing)
 	}
 	return ""
 }
@@ -1296,6 +1336,31 @@ func init() {
 				if what != "" {
 					m.violate(violation{"C18", "floatbits", what, map[string]string{"w": fmt.Sprint(w), "e": fmt.Sprint(e)}})
 				}
+			}
+		}
+		// narrow float ranges (a few ulps wide, anywhere: next to 1, next to 0, in the middle of a binade): every float of the
+		// range comes out
+		for i := 0; i < 12*scale; i++ {
+			w := []int{64, 32}[i%2]
+			k := 2 + r.intn(14)
+			var lo uint64
+			switch i % 4 {
+			case 0, 1:
+				lo = map[int]uint64{64: math.Float64bits(1), 32: uint64(math.Float32bits(1))}[w]
+			case 2:
+				lo = 0
+			default:
+				if w == 64 {
+					lo = math.Float64bits(0.3 + float64(r.intn(1000))/7919)
+				} else {
+					lo = uint64(math.Float32bits(float32(0.3 + float64(r.intn(1000))/7919)))
+				}
+			}
+			what := floatNarrow(r.u64(), w, lo, k)
+			m.eval(fmt.Sprintf("floatnarrow %d %d %d", w, lo, k), true)
+			m.tag(fmt.Sprintf("float%d-narrow-range", w))
+			if what != "" {
+				m.violate(violation{"C18", "floatnarrow", what, map[string]string{"w": fmt.Sprint(w), "lo": fmt.Sprint(lo), "k": fmt.Sprint(k)}})
 			}
 		}
 		// strings: the upper edge of the byte-length range is produced, and a generator whose only values sit on
